@@ -14,6 +14,7 @@ ENTRIES = [(HYP, q) for q in (
     "Polygon.regular_polygon", "Polygon.regular_surface_polygon",
     "genus_g_surface_radius", "regular_polygon_radius",
     "polygon_interior_angle", "TangentVector.get_base_tangent",
+    "Polygon.get_vertices", "Point.get_origin",
     "timelike_to", "spacelike_to")]
 
 
